@@ -1,5 +1,6 @@
 //! Shared driver for the framing family (C01, C03, C06, C07): runs the real `EncodeBody`
-//! and `Streaming` on scripted sources/bodies with a no-op waker, one poll at a time.
+//! and `Streaming` on scripted sources/bodies, one poll at a time, with a counting waker (see
+//! "waker discipline" below: a Pending without a wake-up is the observation `lost-wakeup`).
 //!
 //! Case grammar (space separated):
 //!   enc <c|s> <none|gzip|deflate|zstd> <i|d> <yieldThr> <bufSize> <max|none> <npolls> Z <k> (<raw> <comp>)*k EV <ev>*
@@ -84,6 +85,52 @@ pub fn unhexr(s: &str) -> Vec<u8> {
     out
 }
 
+// ---------- waker discipline ----------
+//
+// A `Poll::Pending` is only legitimate if somebody will wake the task: under a real executor a
+// stream that returns Pending without a wake-up having been registered parks for ever.  The
+// scripted doubles model "not ready now, ready again at once": they wake the waker they were
+// polled with before returning Pending.  The drivers poll with a counting waker; a Pending from
+// the code under test during which no wake-up was issued is the observation `lost-wakeup`, and
+// the driver stops polling that stream, as an executor would.
+
+pub struct CountingWake {
+    pub wakes: std::sync::atomic::AtomicUsize,
+    /// a real task waker to pass the wake-up on to (drivers running under an executor)
+    pub inner: Option<Waker>,
+}
+
+impl std::task::Wake for CountingWake {
+    fn wake(self: std::sync::Arc<Self>) {
+        self.wake_by_ref()
+    }
+    fn wake_by_ref(self: &std::sync::Arc<Self>) {
+        self.wakes.fetch_add(1, std::sync::atomic::Ordering::SeqCst);
+        if let Some(w) = &self.inner {
+            w.wake_by_ref();
+        }
+    }
+}
+
+pub fn counting_waker(inner: Option<Waker>) -> (std::sync::Arc<CountingWake>, Waker) {
+    let c = std::sync::Arc::new(CountingWake { wakes: std::sync::atomic::AtomicUsize::new(0), inner });
+    (c.clone(), Waker::from(c))
+}
+
+impl CountingWake {
+    pub fn count(&self) -> usize {
+        self.wakes.load(std::sync::atomic::Ordering::SeqCst)
+    }
+}
+
+/// Did the poll that just returned Pending leave the task without any prospect of being woken?
+/// (no wake-up issued since `wakes_before`, and nobody kept a clone of the waker: `refs_before`
+/// is the `Arc` count before the poll)
+pub fn no_wakeup(c: &std::sync::Arc<CountingWake>, wakes_before: usize, refs_before: usize) -> bool {
+    c.count() == wakes_before && std::sync::Arc::strong_count(c) <= refs_before
+}
+
+#[allow(dead_code)]
 pub fn noop_waker() -> Waker {
     fn clone(_: *const ()) -> RawWaker {
         RawWaker::new(std::ptr::null(), &VT)
@@ -354,7 +401,7 @@ pub struct ScriptedSource {
 
 impl Stream for ScriptedSource {
     type Item = Result<(Vec<u8>, Option<usize>), Status>;
-    fn poll_next(mut self: Pin<&mut Self>, _cx: &mut Context<'_>) -> Poll<Option<Self::Item>> {
+    fn poll_next(mut self: Pin<&mut Self>, cx: &mut Context<'_>) -> Poll<Option<Self::Item>> {
         match self.evs.pop_front() {
             None => {
                 self.polls_after_end += 1;
@@ -363,7 +410,11 @@ impl Stream for ScriptedSource {
                 }
                 Poll::Ready(None)
             }
-            Some(SrcEv::Pending) => Poll::Pending,
+            Some(SrcEv::Pending) => {
+                // "ready again at once": the wake-up is issued to whoever polled
+                cx.waker().wake_by_ref();
+                Poll::Pending
+            }
             Some(SrcEv::Item(v)) => Poll::Ready(Some(Ok((v, None)))),
             Some(SrcEv::FailItem(v, k)) => Poll::Ready(Some(Ok((v, Some(k))))),
             Some(SrcEv::Err(c)) => Poll::Ready(Some(Err(Status::new(tonic::Code::from_i32(c), "user")))),
@@ -386,13 +437,16 @@ pub struct ScriptedBody {
 impl Body for ScriptedBody {
     type Data = Bytes;
     type Error = Status;
-    fn poll_frame(mut self: Pin<&mut Self>, _cx: &mut Context<'_>) -> Poll<Option<Result<Frame<Bytes>, Status>>> {
+    fn poll_frame(mut self: Pin<&mut Self>, cx: &mut Context<'_>) -> Poll<Option<Result<Frame<Bytes>, Status>>> {
         match self.evs.pop_front() {
             None => {
                 self.polls_after_end.fetch_add(1, std::sync::atomic::Ordering::SeqCst);
                 Poll::Ready(None)
             }
-            Some(BodyEv::Pending) => Poll::Pending,
+            Some(BodyEv::Pending) => {
+                cx.waker().wake_by_ref();
+                Poll::Pending
+            }
             Some(BodyEv::Data(v)) => Poll::Ready(Some(Ok(Frame::data(Bytes::from(v))))),
             Some(BodyEv::Err(c)) => Poll::Ready(Some(Err(Status::new(tonic::Code::from_i32(c), "user")))),
             Some(BodyEv::Trailers(code)) => {
@@ -483,7 +537,7 @@ fn exec_enc_with(t: &[&str], prost: bool) -> String {
         }
     };
     let mut body = body;
-    let waker = noop_waker();
+    let (wakes, waker) = counting_waker(None);
     let mut cx = Context::from_waker(&waker);
     let mut out = Vec::new();
     let mut end_flags = String::new();
@@ -497,7 +551,13 @@ fn exec_enc_with(t: &[&str], prost: bool) -> String {
         if i == npolls {
             break;
         }
+        let (woken_before, refs_before) = (wakes.count(), std::sync::Arc::strong_count(&wakes));
         match body.as_mut().poll_frame(&mut cx) {
+            Poll::Pending if no_wakeup(&wakes, woken_before, refs_before) => {
+                // Pending, and nobody was asked to wake us: the stream would park for ever
+                out.push("lost-wakeup".to_string());
+                break;
+            }
             Poll::Pending => out.push("p".to_string()),
             Poll::Ready(None) => out.push("n".to_string()),
             Poll::Ready(Some(Err(st))) => out.push(st_tok("e", &st)),
@@ -549,7 +609,7 @@ fn exec_dec_with(t: &[&str], prost: bool) -> String {
     let all_data: Vec<u8> = evs.iter().flat_map(|e| if let BodyEv::Data(d) = e { d.clone() } else { vec![] }).collect();
     let body = ScriptedBody { evs, polls_after_end: after.clone() };
     let bs = BufferSettings::new(buf_size, 32 * 1024);
-    let waker = noop_waker();
+    let (wakes, waker) = counting_waker(None);
     let mut cx = Context::from_waker(&waker);
     let mut out = Vec::new();
     // allocation budget for this case: a generous multiple of everything the decoder may
@@ -557,7 +617,12 @@ fn exec_dec_with(t: &[&str], prost: bool) -> String {
     // … plus twice the largest length a header within the limit announces (the decoder may
     // reserve that much; what it must never do is reserve for a length over the limit)
     let limit = if t[1] == "empty" { 4 * 1024 * 1024 } else { max.unwrap_or(4 * 1024 * 1024) };
-    let budget = 64 * (total_data + buf_size) + 1024 * 1024 + 2 * declared_within(&all_data, limit);
+    // … plus a small multiple of the largest decompressed message (the reference decompressor's
+    // table says how large): a message that compresses 1000:1 legitimately needs its raw size
+    let zpos = t.iter().position(|x| *x == "Z").unwrap();
+    let zk: usize = t[zpos + 1].parse().unwrap();
+    let max_raw = (0..zk).map(|i| t[zpos + 2 + 2 * i]).filter(|r| *r != "F").map(|r| (r.len() - 1) / 2).max().unwrap_or(0);
+    let budget = 64 * (total_data + buf_size) + 1024 * 1024 + 2 * declared_within(&all_data, limit) + 4 * max_raw;
     reset_max_alloc();
     macro_rules! mk {
         ($dec:expr) => {
@@ -581,11 +646,16 @@ fn exec_dec_with(t: &[&str], prost: bool) -> String {
         Either::Raw(mk!(RawDec(bs)))
     };
     for _ in 0..npolls {
+        let (woken_before, refs_before) = (wakes.count(), std::sync::Arc::strong_count(&wakes));
         let r: Poll<Option<Result<Vec<u8>, Status>>> = match &mut stream {
             Either::Raw(s) => Pin::new(s).poll_next(&mut cx),
             Either::Prost(s) => Pin::new(s).poll_next(&mut cx).map(|o| o.map(|r| r.map(|m| prost::Message::encode_to_vec(&m)))),
         };
         match r {
+            Poll::Pending if no_wakeup(&wakes, woken_before, refs_before) => {
+                out.push("lost-wakeup".to_string());
+                break;
+            }
             Poll::Pending => out.push("p".to_string()),
             Poll::Ready(None) => out.push("n".to_string()),
             Poll::Ready(Some(Err(st))) => out.push(st_tok("e", &st)),
